@@ -240,6 +240,7 @@ func specs() []spec {
 		{name: "e21-s1-zt1", schema: 1, zt: 1, zc: 1, pos: bk{1: 2, 2: 1, 3: 4}, sum: 14},
 		{name: "e22-s2-tiny-zt-edge", schema: 2, zt: tiny, zc: 1, pos: bk{-511: 1, 1: 1}, sum: 1.125},
 		{name: "e23-s0-extreme", schema: 0, pos: bk{1024: 1, 1025: 2}, neg: bk{1024: 1}, sum: math.Inf(1)},
+		{name: "e23b-s0-extreme-neg", schema: 0, pos: bk{1: 1}, neg: bk{1024: 1, 1025: 4}, sum: math.Inf(-1)},
 		{name: "e24-s1-zt1-both", schema: 1, zt: 1, zc: 2, pos: bk{1: 1, 2: 1}, neg: bk{1: 1, 4: 2}, sum: -5},
 		{name: "e25-dyadic", schema: 0, zt: 0.001, zc: 0.5, pos: bk{1: 0.5, 2: 1.25}, neg: bk{1: 0.125}, sum: 5.5},
 		{name: "e26-fractional", schema: 1, zt: 0.001, zc: 0.1, pos: bk{1: 0.1, 2: third, 3: 0.7}, neg: bk{2: 2.5e-3}, sum: 1.9, inexact: true},
